@@ -1,5 +1,6 @@
 import Dashu.Proofs.Float.Closing
 import Dashu.Proofs.Float.Review
+import Dashu.Proofs.Float.SqrtFlag
 /-
   C03 — Float arithmetic honours the documented rounding contract of its mode.
 
@@ -206,6 +207,41 @@ theorem sqrt_contract (B : Nat) (hB : 2 ≤ B) (m : Mode) (c : Coarse) (sr : Nat
 /-- the integer kernel the driver runs (core `Nat.sqrt`) meets the `sqrt_rem` contract; the link to the
     mirrored `UBig::sqrt_rem` of property C12 is `Props/C03Link.lean` -/
 theorem sqrt_kernel_nat : SqrtRemOk natSqrtRem := natSqrtRem_ok
+
+/-- **the `Exact` flag of `Context::sqrt`, structurally**: with `(S, low, k, e) = sqrtScale` (the scaled significand, the
+    digits the scaling DISCARDED, their count) and `(root, rem) = sqrt_rem(S)`, the returned flag is `Exact` iff
+    `rem = 0` AND `low = 0` — a perfect-square prefix followed by non-zero discarded digits is flagged `Inexact`
+    (the defect repaired by 92fc29e looked at `rem` only).  All bases, precisions, modes, non-negative operands of any
+    length. -/
+theorem sqrt_exact_flag_iff (B : Nat) (hB : 2 ≤ B) (m : Mode) (c : Coarse) (sr : Nat → Nat × Nat) (hsr : SqrtRemOk sr)
+    (p : Nat) (hp : 1 ≤ p) (x : FRepr) (hs : 0 ≤ x.signif) :
+    ∃ r, ctxSqrt B m c sr p x = .ok r ∧
+      (r.2 = none ↔ ((sr (sqrtScale B p x).1.natAbs).2 = 0 ∧ (sqrtScale B p x).2.1 = 0)) := by
+  obtain ⟨r, h1, h2⟩ := ctxSqrt_flag B hB m c sr hsr p hp x hs
+  exact ⟨r, h1, by rw [h2]; exact sqrtRound_flag_none_iff B m sr _ _ _⟩
+
+/-- … and its consequence for the case the round-5 brief names: whenever the scaling discards non-zero low digits the
+    result is flagged `Inexact`, and rightly so — its square differs from the operand -/
+theorem sqrt_discarded_low_inexact (B : Nat) (hB : 2 ≤ B) (m : Mode) (c : Coarse) (sr : Nat → Nat × Nat)
+    (hsr : SqrtRemOk sr) (p : Nat) (hp : 1 ≤ p) (x : FRepr) (hs : 0 ≤ x.signif) (hlow : (sqrtScale B p x).2.1 ≠ 0) :
+    ∃ r adj, ctxSqrt B m c sr p x = .ok (r, some adj) ∧ r.toRat B * r.toRat B ≠ x.toRat B := by
+  obtain ⟨r, h1, h2⟩ := sqrt_exact_flag_iff B hB m c sr hsr p hp x hs
+  obtain ⟨r', h1', hc⟩ := ctxSqrt_contract B hB m c sr hsr p hp x hs
+  have hrr : r' = r := by rw [h1] at h1'; exact (Except.ok.inj h1').symm
+  subst hrr
+  obtain ⟨v, f⟩ := r'
+  cases f with
+  | none => exact absurd (h2.mp rfl).2 hlow
+  | some adj =>
+    refine ⟨v, adj, h1, ?_⟩
+    intro he
+    have := hc.exact_iff.mpr he
+    simp at this
+
+/-- non-vacuity, and the witness of the repaired defect: `√401` at one decimal digit — kept prefix `4 = 2²` (remainder 0),
+    discarded digits `01 ≠ 0` — is `2·10¹` flagged Inexact -/
+example : ctxSqrt 10 .zero coarseNone natSqrtRem 1 ⟨401, 0⟩ = .ok (⟨2, 1⟩, some .NoOp) ∧
+    (sqrtScale 10 1 ⟨401, 0⟩).2.1 = 1 ∧ (natSqrtRem (sqrtScale 10 1 ⟨401, 0⟩).1.natAbs).2 = 0 := by decide +kernel
 
 /-- the documented panics of `sqrt`: unlimited precision first, then a negative operand -/
 theorem sqrt_panics (B : Nat) (m : Mode) (c : Coarse) (sr : Nat → Nat × Nat) (p : Nat) (x : FRepr) :
